@@ -106,6 +106,8 @@ def run(ctx):
     ctx.do(rule_copies_present)
     ctx.do(rule_immutable_api)
     ctx.do(rule_deepcopy)
+    from .hidden_state import rule_no_hidden_state
+    ctx.do(rule_no_hidden_state, "C13.history-independence")
 
 
 def rule_no_param_mutation(ctx):
